@@ -7,6 +7,8 @@
 mod util;
 mod c20_cache;
 mod c15_bbox;
+mod c13_concurrent;
+mod c14_stream;
 mod memsrc;
 mod pipeline;
 
@@ -43,6 +45,9 @@ fn main() {
 	let res = match cmd.as_str() {
 		"c20" => c20_cache::run(&ctx),
 		"c15" => c15_bbox::run(&ctx),
+		"c14" => c14_stream::run(&ctx),
+		"c13" => c13_concurrent::run(&ctx),
+		"c13probe" => c13_concurrent::probe(ctx.replay.as_deref().unwrap_or("")),
 		"pipe" | "c02" | "c03" | "c06" | "c08" | "c09" => pipeline::run(&ctx, &cmd),
 		x => { eprintln!("unknown command {x}"); std::process::exit(2); }
 	};
